@@ -460,6 +460,8 @@ class Model:
                 errs.append(("get-base", "ASTNode.get strict/non-strict wrong"))
             if cls is RS and (RL.get(i) is not None or RL.get(i, strict=False) is not exp):
                 errs.append(("get-superclass", "RL.get on an RS node: strict must miss, strict=False must hit"))
+            if cls is RL and (RS.get(i) is not None or RS.get(i, strict=False) is not None):
+                errs.append(("get-subclass", "RS.get on an RL node (lookup through a DESCENDANT class) must miss, strict or not"))
             other = RP if cls is not RP else RL
             sentinel = object()
             if other.get(i, sentinel) is not sentinel or other.get(i, sentinel, strict=False) is not sentinel:
